@@ -1,6 +1,7 @@
 package props
 
 import (
+	"strings"
 	"fmt"
 	"time"
 
@@ -8,6 +9,7 @@ import (
 	"verif/mc/eng"
 	"verif/mc/explore"
 	"verif/mc/gen"
+	"verif/mc/ref"
 	"verif/mc/report"
 )
 
@@ -205,6 +207,43 @@ func usesFunc(e gen.Expr, name string) bool {
 	return false
 }
 
+// uni14xml is uni14 with the prefix p spelled "xml" (same URIs).
+func uni14xml(n int) []*doc.Tree {
+	key := fmt.Sprintf("U14xml-%d", n)
+	uniMu.Lock()
+	if t, ok := uniCache[key]; ok {
+		uniMu.Unlock()
+		return t
+	}
+	uniMu.Unlock()
+	ren := func(s string) string {
+		if strings.HasPrefix(s, "p:") {
+			return "xml:" + s[2:]
+		}
+		return s
+	}
+	var out []*doc.Tree
+	for _, t := range uni14(n) {
+		spec := t.ToSpec()
+		var rec func(s []doc.Spec)
+		rec = func(s []doc.Spec) {
+			for i := range s {
+				s[i].N = ren(s[i].N)
+				for a := range s[i].A {
+					s[i].A[a].N = ren(s[i].A[a].N)
+				}
+				rec(s[i].C)
+			}
+		}
+		rec(spec)
+		out = append(out, doc.Build(spec))
+	}
+	uniMu.Lock()
+	uniCache[key] = out
+	uniMu.Unlock()
+	return out
+}
+
 func c14Spaces(tier string) []*explore.Space {
 	tests := []string{"a", "p:a", "x:a", "*", "b", "p:b", "q:a"}
 	var steps []gen.Expr
@@ -215,6 +254,15 @@ func c14Spaces(tier string) []*explore.Space {
 	}
 	for _, t := range []string{"a", "p:a", "x:a", "*"} {
 		steps = append(steps, relPath(gen.At(t)), gen.AbsP(gen.DSlash(), gen.At(t)), relPath(gen.Ch(t)), gen.AbsP(gen.DSlash(), gen.Ch(t)))
+	}
+	// a prefixed name test directly followed by an operator NAME (and, or, div, mod) or a symbol
+	for _, pr := range [][2]string{{"p:a", "q:a"}, {"p:a", "p:b"}, {"x:a", "p:a"}, {"p:a", "x:a"}, {"q:a", "a"}} {
+		l, r := relPath(gen.Ch(pr[0])), relPath(gen.Ch(pr[1]))
+		for _, op := range []string{"and", "or"} {
+			steps = append(steps, gen.AbsP(gen.DSlash(), gen.Ch("*", gen.B(op, l, r))), relPath(gen.Ch("*", gen.B(op, l, r))))
+		}
+		steps = append(steps, gen.B("|", l, r), gen.AbsP(gen.DSlash(), gen.Ch("*", gen.B("=", gen.B("div", gen.F("count", l), gen.N(1)), gen.N(1)))),
+			gen.AbsP(gen.DSlash(), gen.Ch("*", gen.B("=", gen.B("mod", gen.F("count", l), gen.N(2)), gen.F("count", r)))), gen.AbsP(gen.DSlash(), gen.Ch("*", gen.B("=", l, r))))
 	}
 	var fns []gen.Expr
 	args := []gen.Expr{relPath(gen.Ch("*")), relPath(gen.At("*")), relPath(gen.Ch("nosuch")), relPath(gen.Dot()), relPath(gen.DotDot()), relPath(gen.Ch("*"), gen.Ch("*")),
@@ -255,8 +303,7 @@ func c14Spaces(tier string) []*explore.Space {
 		cfg nsConfig
 		e   gen.Expr
 	}
-	for _, c := range c14Configs() {
-		c := c
+	addCfg := func(c nsConfig, steps, fns []gen.Expr, docs func() []*doc.Tree) {
 		keep := func(in []gen.Expr, nsURI bool) []gen.Expr {
 			var out []gen.Expr
 			for _, e := range in {
@@ -290,6 +337,27 @@ func c14Spaces(tier string) []*explore.Space {
 			SigOf: func(ast gen.Expr) string { return c.name + "|" + gen.Skeleton(ast) }}
 		spaces = append(spaces, exprSpace("Steps:"+c.name, "name tests on all 12 axes, one step and after //", keep(steps, true), docs, cfg))
 		spaces = append(spaces, exprSpace("Funcs:"+c.name, "name(), local-name(), namespace-uri() without and with node-set arguments", keep(fns, false), docs, cfgE))
+	}
+	for _, c := range c14Configs() {
+		addCfg(c, steps, fns, docs)
+	}
+	// the same with the prefix p spelled "xml" everywhere (documents, expressions, maps): no prefix is special
+	renameP := func(in []gen.Expr, stride int) []gen.Expr {
+		var out []gen.Expr
+		for i := 0; i < len(in); i += stride {
+			s := strings.ReplaceAll(gen.Render(in[i]), "p:", "xml:")
+			ast, err := ref.Parse(s)
+			if err != nil {
+				panic("c14 xml variant does not parse: " + s + ": " + err.Error())
+			}
+			out = append(out, ast)
+		}
+		return out
+	}
+	xmlDocs := func() []*doc.Tree { return uni14xml(n) }
+	for _, c := range []nsConfig{{"Compile/navNS/xml", false, nil, true}, {"WithNS({})/navNS/xml", true, map[string]string{}, true}, {"WithNS(xml=u1)/navNS/xml", true, map[string]string{"xml": "u1"}, true},
+		{"WithNS(x=u1,xml=u2)/navNS/xml", true, map[string]string{"x": "u1", "xml": "u2"}, true}, {"WithNS(xml=u2)/navPlain/xml", true, map[string]string{"xml": "u2"}, false}} {
+		addCfg(c, renameP(steps, 2), renameP(fns, 3), xmlDocs)
 	}
 	ub := unbound
 	spaces = append(spaces, &explore.Space{
